@@ -1691,3 +1691,23 @@ def field_writers(F, adt, field, kinds=("write", "mut", "callret")):
             if kind in kinds and place_has_field(p, adt, field):
                 out.append((b, bb, kind, p, ln))
     return out
+
+
+def fields_touched(F, root, adts, kinds, depth=2, crates=("jj_lib",)):
+    """(adt, field) accessed with one of `kinds` inside cone(root) up to `depth` call levels"""
+    cone = F.cg.cone([root], crates=crates, max_depth=depth)
+    out = set()
+    if not cone:
+        return out
+    roots = list(cone)
+    for i in range(0, len(roots), 400):
+        chunk = roots[i:i + 400]
+        ph = ",".join("?" * len(chunk))
+        for r in F.q(f"SELECT DISTINCT adt, field, kind FROM field_access WHERE root IN ({ph})", chunk):
+            if r["adt"] in adts and r["kind"] in kinds:
+                out.add((r["adt"], r["field"]))
+    return out
+
+
+READ_KINDS = ("read", "move", "shared", "through", "fake", "discr")
+WRITE_KINDS = ("write", "mut", "mut-through", "write-through")
